@@ -829,6 +829,8 @@ impl LdapConnAsync {
                         // caller timed out (or abandoned it) and the scrub got here first.
                         // The request must be neither sent nor registered.
                         if !self.msgmap.lock().expect("msgmap mutex (op rx)").1.contains(&id) {
+                            #[cfg(ldap3_verif)]
+                            verif_trace(String::from("drv opskipped"));
                             continue;
                         }
                         if let LdapOp::Search(ref search_tx) = op {
